@@ -10,7 +10,7 @@ from . import e2e as e2emod
 ID = "C15"
 CASE_TIMEOUT = 10
 THEOREMS = ["C15_scan", "C15_scan_expression", "C15_parse", "C15_lookup", "C15_ips_writer", "C15_ips_reader",
-            "C15_to_bytes", "C15_to_text"]
+            "C15_to_bytes", "C15_to_text", "C15_assemble", "C15_codegen", "C15_passes"]
 RULE = ("every sequence of length <= 2 (quick; <= 3 thorough) over a 46-fragment alphabet (mnemonics, directives, "
         "brackets, quotes, comment openers, operators, numbers, labels, a non-ASCII letter, NUL), joined with and without "
         "spaces; random longer soups; every single-line deletion / duplication / truncation of valid generated programs; "
@@ -18,9 +18,12 @@ RULE = ("every sequence of length <= 2 (quick; <= 3 thorough) over a 46-fragment
         "assembler under a per-case watchdog and through the composed model; non-trivial: every case")
 PROVED_NOTE = ("proved (fuel sufficiency, fuel a simple function of the input size): the scanner driver and every lexer loop "
                "(both entry points), the parser (all loops and recursive descent, includes bounded by the include depth), name "
-               "lookup, the IPS split loop and reader, the table codec. Correspondence-only: that code generation + passes as a "
-               "whole never exhaust fuel (single structural traversals plus the depth fuel = RecursionError) - checked by the "
-               "watchdog run against the composed model. Wall-clock time itself is runtime: partial in that sense.")
+               "lookup, the IPS split loop and reader, the table codec; and the composition: for every source text, files and "
+               "options the whole pipeline model (scan, parse with includes, code generation, both passes, emission) ends with an "
+               "output or a reported error, never out of fuel (invariant: scope tree well formed, current scope valid, table "
+               "functions total). Macro recursion is bounded by the depth fuel = the reported RecursionError. "
+               "Correspondence-only: that the code's loops are the model's (watchdog run). Wall-clock time itself is runtime: "
+               "partial in that sense.")
 MANIFEST = {
     "text": ("Coq fuel-sufficiency theorems for every fuelled loop of the scanner, parser, lookup, IPS and table models (the "
              "models are faithful about non-progress: a loop that would spin runs out of fuel); composed pipeline model tied to "
